@@ -219,7 +219,10 @@ class Exec(Engine):
                 if self.iter_state is None:
                     raise Undecided('before() outside a loop body postcondition', node)
                 b = self.iter_state.copy()
-                b.frames, b.parents, b.cur = st.frames, st.parents, st.cur
+                if st.cur in b.frames:
+                    b.cur = st.cur          # same function frame: locals have their values at the iteration start
+                else:
+                    b.frames, b.parents, b.cur = st.frames, st.parents, st.cur
                 return [(self.snapshot(self.ev1(node.args[0], b), b), st)]
             if f.id in ('ev_count', 'ev_arg', 'ev_outcome', 'ev_names', 'ev_raised') and self.pure:
                 return [(self.event_query(f.id, node, st), st)]
@@ -331,6 +334,7 @@ class Exec(Engine):
         raise Undecided('sum over a field of type %r' % (p,), node)
 
     pending_defined = []
+    skipped_callee_clauses = set()
 
     def ev_ListComp(self, node, st):
         from . import reclists
@@ -814,8 +818,9 @@ class Exec(Engine):
     def _finish_contract(self, c, bound, st, pre_state, node):
         if True:
             out = []
-            # exceptional outcomes
+            # exceptional outcomes (a class is governed by the FIRST entry that covers it, as in check_raise)
             normal_guard = []
+            earlier_bases = []
             for clsname, when in c.raises.items():
                 maybe = clsname.endswith('?')
                 clsname = clsname.rstrip('?')
@@ -828,17 +833,27 @@ class Exec(Engine):
                     if cls is None:
                         raise Undecided('unknown exception class %s in contract %s' % (base, c.qualname))
                     classes = [cls] + (self.subclasses_of(cls) if star else [])
-                cond = TRUE if when is None else self.clause(when, st, bound, old=pre_state)
+                per_class = when is not None and 'exc' in __import__('re').findall(r'[A-Za-z_]+', when)
+                cond = TRUE if (when is None or per_class) else self.clause(when, st, bound, old=pre_state)
                 if when is not None and not maybe:
+                    if per_class:
+                        raise Undecided('a definite raise clause cannot mention exc (%s)' % c.qualname, node)
                     normal_guard.append(Not(cond))
+                classes = [k for k in classes if k is None or not any(issubclass(k, b0) for b0 in earlier_bases)]
+                if base != 'LIVE':
+                    earlier_bases.append(self.exc_class(base))
                 for cls in classes:
                     s = st.copy()
-                    if not self.feasible(s, cond):
-                        continue
-                    s.assume(cond)
                     exc = (s.handling[-1] if s.handling else s.live_exc) if cls is None else VExc(cls, {}, tag='callee:' + c.func)
                     if exc is None:
                         exc = VExc(Exception, {}, tag='live')
+                    if per_class:
+                        b3 = dict(bound)
+                        b3['exc'] = exc
+                        cond = self.clause(when, s, b3, old=pre_state)
+                    if not self.feasible(s, cond):
+                        continue
+                    s.assume(cond)
                     if c.log:
                         self.log_event(s, c.qualname, bound, 'raise:' + ('LIVE' if cls is None else cls.__name__))
                     out.append((Raised(exc), s))
@@ -861,7 +876,11 @@ class Exec(Engine):
             b2 = dict(bound)
             b2['result'] = result
             for name, text in c.ensures:
-                st.assume(self.clause(text, st, b2, old=pre_state))
+                try:
+                    st.assume(self.clause(text, st, b2, old=pre_state))
+                except Undecided as ex:
+                    # a clause about state this caller does not track is simply not used (assuming less is sound)
+                    self.skipped_callee_clauses.add('%s:%s (%s)' % (c.qualname, name, str(ex)[:80]))
             if not self.feasible(st):
                 # never let an inconsistent callee contract silently remove the continuation
                 raise Undecided('the ensures of %s contradict the caller state (aliasing result? use result_alias)' % c.qualname, node)
@@ -1013,7 +1032,7 @@ class Exec(Engine):
                 return st.alloc(HInst(o.cls, {k: self.fresh_like(x, '%s_%s' % (base, k), st) for k, x in o.fields.items()}))
             if isinstance(o, HDict):
                 return st.alloc(HDict({k: self.fresh_like(x, '%s_%s' % (base, k), st) for k, x in o.entries.items()}))
-        if isinstance(v, (VPy, VFunc, VExc)):
+        if isinstance(v, (VPy, VFunc, VExc, VUntracked)):
             return v
         raise Undecided('cannot havoc value %r' % (v,))
 
@@ -1737,6 +1756,14 @@ class Exec(Engine):
             st.ghost[name] = v
 
     def for_with_invariant(self, node, ordn, spec, n, getter, st):
+        outer_mark = st.ghost.get('__iter_event_start__', 0)
+        out = self._for_with_invariant(node, ordn, spec, n, getter, st)
+        for _, _, s_out in out:
+            # the event window of an enclosing loop iteration / of the function is restored on leaving this loop
+            s_out.ghost['__iter_event_start__'] = outer_mark
+        return out
+
+    def _for_with_invariant(self, node, ordn, spec, n, getter, st):
         self.check_header(spec, ast.unparse(node.iter), ordn, node)
         idx = '_i%d' % ordn
         old = self.entry_state
@@ -1825,7 +1852,6 @@ class Exec(Engine):
                 if t_post.lit is not None and not t_post.lit[1]:
                     raise Undecided('exit_post %s of loop #%d is literally false on the havocked state' % (name, ordn), node)
                 s_after.assume(t_post)
-            s_after.ghost['__iter_event_start__'] = len(s_after.events)
             out.append(('normal', None, s_after))
         return out
 
@@ -2013,6 +2039,8 @@ class Exec(Engine):
         if p[0] == 'opt':
             isn = self.ctx.app(self.ctx.fun(name + '_isnone', [INT], BOOL), i)
             return VOptSym(isn, self.field_fn(base, f + '_v', p[1], i, st))
+        if p[0] == 'none':
+            return NONE
         if p[0] in ('int', 'bool', 'str', 'val'):
             return wrap(self.ctx.app(self.ctx.fun(name, [INT], sort_of(p)), i), p)
         if p[0] == 'list' and p[1][0] in ('int', 'bool', 'str'):
